@@ -1,7 +1,7 @@
 (* PureSupport.v -- the vocabulary the translated functions of gen/Pure.v are written in (no proofs):
    an action as the code builds it (tracepoint id, condition, the CONFIG DICT as an association list, kind),
    and how the model's description of an action (TriggerTable.adesc) is read off that dict. *)
-From Deep Require Import Base Config Limiter Cond Match TriggerTable Attrs ConfigSvc.
+From Deep Require Import Base Config Limiter Cond Match TriggerTable Attrs ConfigSvc Lifecycle.
 
 Inductive dval := DStr (s : str) | DOpt (o : option str) | DList (l : list str) | DMetrics (n : nat).
 Record gaction := mk_action { ga_tp : str; ga_cond : option str; ga_cfg : list (str * dval); ga_kind : akind }.
@@ -92,3 +92,6 @@ Fixpoint pop_loop {C} (body : C -> bool -> verdict) (st : list C) (flag : bool) 
       | VPopContinue f' => let '(d, p) := pop_loop body r f' in (c :: d, p)
       end
   end.
+
+(* sys.settrace(h) / threading.settrace(h): the hook becomes h (a hook is a number: Lifecycle.AGENT is the agent's) *)
+Definition set_hook (h : nat) : nat := h.
